@@ -400,3 +400,143 @@ Example c17_server_close_instance :
     map vrets (vths x) = [[(VAccept, 1)]; [(VRead 0, 1)]; [(VClose, 7)]; [(VClose, 7)]]%N /\
     vst (vshd x) = VClosed.
 Proof. eexists. split; [vm_compute; reflexivity|]. vm_compute. auto. Qed.
+
+(* ==========================================================================================
+   Part 4: the read side of transport.Handle — leftover handling of Read / ReadMsg
+   (Model/HandleRead.v, Proofs/HandleReadProofs.v; docs/C17.md section "Handle.Read / ReadMsg") *)
+From Hop Require Import Base HandleRead HandleReadProofs.
+Local Open Scope N_scope.
+
+(* ------------------------------------------------------------------ byte-stream law *)
+(* Nothing lost, nothing duplicated, order kept: at every moment the bytes handed to the reader so
+   far, then the leftover buffer, then the queued messages, are exactly the bytes of the messages
+   accepted into the queue so far.  (A message that finds the queue full, or the session closed,
+   is dropped whole by handleSessionMessage before it is accepted — the datagram layer may lose
+   messages, the read path may not lose bytes.) *)
+Theorem c17_read_stream_law : forall cap ex ops s evs,
+  hr_run (hrinit cap ex) ops = (s, evs) ->
+  hr_delivered evs ++ hrbuf s ++ List.concat (hrq s) = hr_accepted evs.
+Proof. exact hr_stream_law. Qed.
+Print Assumptions c17_read_stream_law.
+
+(* the same from an arbitrary state (the step-by-step form of the law) *)
+Theorem c17_read_stream_law_from_any_state : forall ops s s' evs,
+  hr_run s ops = (s', evs) ->
+  hr_pending s ++ hr_accepted evs = hr_delivered evs ++ hr_pending s'.
+Proof. exact hr_run_stream. Qed.
+Print Assumptions c17_read_stream_law_from_any_state.
+
+(* a call never returns more than the caller's buffer holds *)
+Theorem c17_read_fits_buffer : forall s n s' b,
+  (hr_step s (HRead n) = (s', HData b) \/ hr_step s (HReadMsg n) = (s', HData b)) -> len b <= n.
+Proof. exact hr_read_fits. Qed.
+Print Assumptions c17_read_fits_buffer.
+
+(* Non-vacuity: a 5-byte message read with buffers of 2, 0, 2, 4 bytes while a second message
+   arrives in between, then Close: the fragments are 2+0+2+1 bytes, then the second message, then
+   io.EOF; delivered = accepted = both messages. *)
+Example c17_read_stream_instance :
+  let ops := [HArrive [1;2;3;4;5]; HRead 2; HRead 0; HArrive [6;7]; HRead 2; HRead 4; HShut; HRead 4; HRead 4] in
+  let '(s, evs) := hr_run (hrinit 4 false) ops in
+  map snd evs = [HQueued; HData [1;2]; HData []; HQueued; HData [3;4]; HData [5]; HNil; HData [6;7]; HEof] /\
+  hr_delivered evs = [1;2;3;4;5;6;7] /\ hr_accepted evs = [1;2;3;4;5;6;7] /\ hrbuf s = [] /\ hrq s = [].
+Proof. vm_compute. repeat split. Qed.
+
+(* ------------------------------------------------------------------ data before end-of-stream *)
+(* A reader call reports io.EOF only on a closed handle whose leftover buffer and queue are both
+   empty, and it changes nothing. *)
+Theorem c17_read_eof_only_when_drained : forall s o s',
+  hr_is_reader_ev (o, HEof) = true -> hr_step s o = (s', HEof) ->
+  (hrclosed s = true /\ hrbuf s = [] /\ hrq s = []) /\ s' = s.
+Proof. exact hr_eof_drained. Qed.
+Print Assumptions c17_read_eof_only_when_drained.
+
+(* For every history: when a Read/ReadMsg reports io.EOF, every byte accepted so far has been
+   delivered; afterwards nothing is accepted, nothing is delivered, and every Read/ReadMsg reports
+   io.EOF again (no data after end-of-stream). *)
+Theorem c17_read_data_before_eof : forall cap ex ops1 o ops2 s1 evs1 s2 s3 evs2,
+  hr_run (hrinit cap ex) ops1 = (s1, evs1) ->
+  hr_is_reader_ev (o, HEof) = true ->
+  hr_step s1 o = (s2, HEof) ->
+  hr_run s2 ops2 = (s3, evs2) ->
+  hr_delivered evs1 = hr_accepted evs1 /\
+  hr_accepted evs2 = [] /\ hr_delivered evs2 = [] /\
+  Forall (fun e => hr_is_reader_ev e = true -> snd e = HEof) evs2.
+Proof. exact hr_data_before_eof. Qed.
+Print Assumptions c17_read_data_before_eof.
+
+(* runs compose, so the two halves above are one history *)
+Theorem c17_read_run_app : forall ops1 ops2 s s1 evs1 s2 evs2,
+  hr_run s ops1 = (s1, evs1) -> hr_run s1 ops2 = (s2, evs2) ->
+  hr_run s (ops1 ++ ops2) = (s2, evs1 ++ evs2).
+Proof. exact hr_run_app. Qed.
+Print Assumptions c17_read_run_app.
+
+(* Close does not discard anything: a Read with a non-empty buffer on a handle that still holds
+   something (leftover or queued, closed or not) returns data — never an error, never blocks — and
+   strictly reduces what is held ... *)
+Theorem c17_read_progress : forall s n,
+  0 < n -> (hr_measure s > 0)%nat ->
+  exists s' b, hr_step s (HRead n) = (s', HData b) /\ (hr_measure s' < hr_measure s)%nat /\
+               hrclosed s' = hrclosed s.
+Proof. exact hr_read_progress. Qed.
+Print Assumptions c17_read_progress.
+
+(* ... so a closed handle is drained by at most [hr_measure s] (= bytes + messages held) Reads of any
+   non-empty buffer size: all of them return data, together exactly the pending bytes in order, and
+   the next Read reports io.EOF. *)
+Theorem c17_read_close_then_drain : forall n, 0 < n -> forall k s,
+  hrclosed s = true -> (hr_measure s <= k)%nat ->
+  exists j s' evs, (j <= k)%nat /\ hr_run s (hr_reads n j) = (s', evs) /\
+    Forall (fun e => exists b, snd e = HData b) evs /\
+    hr_delivered evs = hr_pending s /\ hr_accepted evs = [] /\
+    hr_step s' (HRead n) = (s', HEof).
+Proof. exact hr_drain. Qed.
+Print Assumptions c17_read_close_then_drain.
+
+(* Non-vacuity: leftover [3;4;5] and two queued messages (one empty) on a closed handle, 2-byte
+   buffer: measure 3 + (1+2) + (1+0) = 7; five Reads return 2,1,2,0 bytes... then io.EOF. *)
+Example c17_read_drain_instance :
+  let s := mkHR [[6;7]; []] [3;4;5] true false 4 in
+  hr_measure s = 7%nat /\
+  map snd (snd (hr_run s (hr_reads 2 5))) = [HData [3;4]; HData [5]; HData [6;7]; HData []; HEof].
+Proof. vm_compute. split; reflexivity. Qed.
+
+(* ------------------------------------------------------------------ message law (ReadMsg) *)
+(* A connection that is read with ReadMsg only (no Read): the messages returned, then the message
+   parked in the buffer by an ErrBufOverflow (if any), then the queue, are exactly the accepted
+   messages — whole, in order, at most once (C03: "byte-identical to a message the peer wrote"). *)
+Theorem c17_readmsg_whole_messages : forall cap ex ops s evs,
+  forallb (fun o => negb (hr_is_read_op o)) ops = true ->
+  hr_run (hrinit cap ex) ops = (s, evs) ->
+  hr_delivered_msgs evs ++ hr_bufmsg s ++ hrq s = hr_accepted_msgs evs.
+Proof. exact hr_msg_law. Qed.
+Print Assumptions c17_readmsg_whole_messages.
+
+(* Non-vacuity: a 9-byte message, ReadMsg with 8 bytes twice (ErrBufOverflow, message kept), then 9. *)
+Example c17_readmsg_overflow_instance :
+  let ops := [HArrive [1;2;3;4;5;6;7;8;9]; HReadMsg 8; HReadMsg 8; HReadMsg 9; HReadMsg 9] in
+  map snd (snd (hr_run (hrinit 2 true) ops)) = [HQueued; HOverflow; HOverflow; HData [1;2;3;4;5;6;7;8;9]; HTimeout].
+Proof. vm_compute. reflexivity. Qed.
+
+(* The hypothesis "no Read" is needed: after a short Read, ReadMsg returns the rest of the fragmented
+   message, which is not a message the peer wrote (the byte-stream law still holds).  This is the
+   stream interface working as written ("If there's buffered data, return all of it"), recorded so
+   that nobody reads the message law as covering mixed use.  Replayed on the real Handle by the
+   driver (class handle-read-script). *)
+Theorem c17_readmsg_after_short_read_returns_fragment_refuted :
+  exists ops s evs, hr_run (hrinit 4 true) ops = (s, evs) /\
+    hr_accepted_msgs evs = [[1;2;3;4;5]] /\ hr_delivered_msgs evs = [[3;4;5]] /\
+    hr_delivered evs = [1;2;3;4;5].
+Proof. exists [HArrive [1;2;3;4;5]; HRead 2; HReadMsg 10]. eexists. eexists. vm_compute. repeat split. Qed.
+Print Assumptions c17_readmsg_after_short_read_returns_fragment_refuted.
+
+(* Also as written: Read with a zero-length buffer on an empty leftover buffer still performs the
+   Recv — on an idle open handle it blocks (or times out / reports io.EOF), and when a message is
+   queued it moves the whole message into the leftover buffer and returns (0, nil). *)
+Example c17_read_zero_length_buffer :
+  map snd (snd (hr_run (hrinit 4 false) [HRead 0])) = [HBlock] /\
+  map snd (snd (hr_run (hrinit 4 true) [HRead 0])) = [HTimeout] /\
+  (let '(s, evs) := hr_run (hrinit 4 false) [HArrive [1;2;3;4]; HRead 0] in
+   map snd evs = [HQueued; HData []] /\ hrbuf s = [1;2;3;4] /\ hrq s = []).
+Proof. vm_compute. repeat split. Qed.
